@@ -87,8 +87,27 @@ def machine_spec(draw, profile="general", tier="quick"):
         tps = draw(st.sampled_from([1, 2, 3, 5, 10, 20, 50, 100]))
     npipes = draw(st.integers(2, 8))
     pipes = [draw(pipe_spec(profile)) for _ in range(npipes)]
+    if draw(st.integers(0, 3)) == 0:
+        # branches: some templates become independent chains of one shared pipeline
+        g = draw(st.integers(2, min(3, npipes)))
+        for k in range(g):
+            pipes[k]["group"] = 0
     nsteps = draw(st.integers(3, 25 if tier == "quick" else 60))
     steps = []
+    if profile == "twins":
+        # identical containers started together: they reach operator boundaries, and finish suspensions, in the same ticks
+        pools, multi = 1, True
+        base = draw(pipe_spec("general"))
+        while len(base["ops"]) < 2:
+            base["ops"].append([draw(seg_spec("general"))])
+        k = draw(st.integers(2, 4))
+        pipes = [dict(base) for _ in range(k)] + pipes[:2]
+        npipes = len(pipes)
+        cpus = max(cpus, k)
+        rs = list(draw(st.sampled_from([("cap", 0.1), ("cap", 0.2), ("abs", 1), ("abs", 2), ("abs", 0.5), ("fit", 0.5)])))
+        steps.append({"sus": [], "asg": [[0, i, 0, ["abs", 1], rs, None] for i in range(k)], "idle": 0})
+        for _ in range(draw(st.integers(2, 12))):
+            steps.append({"sus": [[0, j, "ok"] for j in range(draw(st.integers(1, k)))], "asg": [], "idle": 0})
     for _ in range(nsteps):
         nsus = draw(st.sampled_from([0, 0, 0, 1, 1, 2] if profile != "suspend" else [0, 1, 1, 1, 2]))
         sus = [[draw(st.integers(0, pools - 1)), draw(st.integers(0, 5)), "ok"] for _ in range(nsus)]
@@ -177,21 +196,26 @@ class Episode:
 
     # -- building -------------------------------------------------------------------------------
     def instantiate(self, pi, cpus, alloc):
+        """Templates with the same "group" are independent chains (branches) of ONE real pipeline."""
         from eudoxia.workload.pipeline import Segment, Pipeline
         from eudoxia.utils import Priority
-        tmpl = self.spec["pipes"][pi]
-        ops_real = [[seg_real(sg, self.tps, cpus, self.spec["ram"], alloc) for sg in segs] for segs in tmpl["ops"]]
-        p = Pipeline(f"p{pi}", [Priority.QUERY, Priority.INTERACTIVE, Priority.BATCH_PIPELINE][pi % 3])
-        prev = None
-        real = []
-        for segs in ops_real:
-            o = p.new_operator([prev] if prev else None)
-            for sg in segs:
-                o.add_segment(Segment(baseline_cpu_seconds=sg["cpu"], cpu_scaling=sg["law"], memory_gb=sg["mem"],
-                                      storage_read_gb=sg["read"]))
-            prev = o
-            real.append(o)
-        self.pipes[pi] = (MPipe(f"p{pi}", len(real)), p, real, ops_real)
+        g = self.spec["pipes"][pi].get("group")
+        members = [pi] if g is None else [k for k, t in enumerate(self.spec["pipes"]) if t.get("group") == g]
+        first = min(members)
+        p = Pipeline(f"p{first}", [Priority.QUERY, Priority.INTERACTIVE, Priority.BATCH_PIPELINE][first % 3])
+        for k in members:
+            tmpl = self.spec["pipes"][k]
+            ops_real = [[seg_real(sg, self.tps, cpus, self.spec["ram"], alloc) for sg in segs] for segs in tmpl["ops"]]
+            prev = None
+            real = []
+            for segs in ops_real:
+                o = p.new_operator([prev] if prev else None)
+                for sg in segs:
+                    o.add_segment(Segment(baseline_cpu_seconds=sg["cpu"], cpu_scaling=sg["law"], memory_gb=sg["mem"],
+                                          storage_read_gb=sg["read"]))
+                prev = o
+                real.append(o)
+            self.pipes[k] = (MPipe(f"p{first}.{k}", len(real)), p, real, ops_real)
         return self.pipes[pi]
 
     def template_levels(self, pi, lo, hi, cpus):
@@ -587,6 +611,11 @@ class Episode:
         if not rp.active_containers and rep != 0:
             if abs(rep) > 1e-6:
                 P("C04:reported-usage-wrong", f"pool {pool}: empty pool reports {rep} GB")
+        # C09: a container whose operators have all reached a final state has ended: it must have reported in this tick
+        for c in rp.active_containers:
+            sts = [o.state().value for o in c.operators]
+            if all(x in ("completed", "failed") for x in sts):
+                P("C09:ended-without-result-in-tick", f"{c.container_id} has operator states {sts} but is still listed as running and reported no result")
         # C09 accounting
         live = len(rp.active_containers) + len(rp.suspending_containers)
         if m.n_accepted != m.n_ok + m.n_failed + len(rp.suspended_containers) + live:
@@ -600,7 +629,8 @@ class Episode:
         for pi, (mpipe, rp, rops, _) in self.pipes.items():
             real = [o.state().value for o in rops]
             if real != mpipe.states:
-                P("C02:operator-states-differ", f"p{pi}: {real}, model {mpipe.states}")
+                sus = any({a, b} == {"suspending", "pending"} for a, b in zip(real, mpipe.states))
+                P("C10:suspended-work-state" if sus else "C02:operator-states-differ", f"p{pi}: {real}, model {mpipe.states}")
         for r in results:
             self.real_results.setdefault(r.container_id, []).append(self.tick_no)
             if len(self.real_results[r.container_id]) > 1:
